@@ -9,7 +9,7 @@
    std::array<T, N> / T[N]: SArr n e, std::vector<bool>: SVecBool).
    has_shape (TObj kvs) (SMap ks e): the keys are of the key type ks and STRICTLY INCREASING (std::less<K>:
    integers by value, strings bytewise as unsigned char, a proper prefix first) — a std::map value.
-   map_free s: the shape has no std::map.  keys_refl d: no NaN key in the document d (known finding M01 of C03).
+   map_free s: the shape has no std::map.
    load_tr s v = (the scopes' answers as tokens, the loaded value)
    at the association-list level; elem_prog / member_prog = the request program issued on that document;
    spec_reqs / spec_areqs: the association-list semantics of request programs (MpScopeSpec.v);
@@ -96,14 +96,12 @@ Theorem T_C01_mp_read_off : forall narrow widen o s v,
 Proof. exact read_off_load. Qed.
 Print Assumptions T_C01_mp_read_off.
 
-(* ---- transport to the scope model on the bytes (through T_C03_mp_refines_outside) ---- *)
+(* ---- transport to the scope model on the bytes (through T_C03_mp_refines) ---- *)
 (* any well-formed object document, any class shape, error-free load: the scope MODEL run on the bytes
    with the class's request program answers exactly load_tr's tokens, ends right behind the document,
-   no scope failed to close (flag clear), Finalize() passes.  If the class holds a std::map somewhere, the
-   document must not have a NaN key (the VisitKeys callback's key is a reference: known finding M01 of C03) *)
+   no scope failed to close (flag clear), Finalize() passes *)
 Theorem T_C01_mp_load_class_on_model : forall narrow widen o data kvs rest ms toks r,
   bytes data -> decode data = Some (MMap kvs, rest) -> doc_ok (MMap kvs) = true ->
-  (map_free (SClass ms) = true \/ keys_refl (MMap kvs) = true) ->
   load_tr narrow widen o (SClass ms) (MMap kvs) = (toks, r) -> no_err r ->
   run_obj_root narrow widen o data (class_prog o ms kvs) = Done toks rest false /\
   load_obj narrow widen o data (class_prog o ms kvs) = MpScopeModel.LOk toks rest.
@@ -112,7 +110,6 @@ Print Assumptions T_C01_mp_load_class_on_model.
 
 Theorem T_C01_mp_load_vec_on_model : forall narrow widen o data vs rest e toks r,
   bytes data -> decode data = Some (MArr vs, rest) -> doc_ok (MArr vs) = true ->
-  (map_free (SVec e) = true \/ keys_refl (MArr vs) = true) ->
   load_tr narrow widen o (SVec e) (MArr vs) = (toks, r) -> no_err r ->
   run_arr_root narrow widen o data (vec_prog o e vs) = Done toks rest false /\
   load_arr narrow widen o data (vec_prog o e vs) = MpScopeModel.LOk toks rest.
@@ -124,7 +121,6 @@ Print Assumptions T_C01_mp_load_vec_on_model.
    OutOfRange (load_tr; see T_C01_mp_fixed_example) *)
 Theorem T_C01_mp_load_fixed_on_model : forall narrow widen o data vs rest n e toks r,
   bytes data -> decode data = Some (MArr vs, rest) -> doc_ok (MArr vs) = true ->
-  (map_free (SArr n e) = true \/ keys_refl (MArr vs) = true) ->
   load_tr narrow widen o (SArr n e) (MArr vs) = (toks, r) -> no_err r ->
   run_arr_root narrow widen o data (vec_prog o e vs) = Done toks rest false /\
   load_arr narrow widen o data (vec_prog o e vs) = MpScopeModel.LOk toks rest.
@@ -143,7 +139,7 @@ Print Assumptions T_C01_mp_load_vector_bool_on_model.
 
 (* a std::map at the root: the program is VisitKeys with one keyed load per member from inside the callback *)
 Theorem T_C01_mp_load_map_on_model : forall narrow widen o data kvs rest ks e toks r,
-  bytes data -> decode data = Some (MMap kvs, rest) -> doc_ok (MMap kvs) = true -> keys_refl (MMap kvs) = true ->
+  bytes data -> decode data = Some (MMap kvs, rest) -> doc_ok (MMap kvs) = true ->
   load_tr narrow widen o (SMap ks e) (MMap kvs) = (toks, r) -> no_err r ->
   run_obj_root narrow widen o data (map_prog o ks e kvs) = Done toks rest false /\
   load_obj narrow widen o data (map_prog o ks e kvs) = MpScopeModel.LOk toks rest.
@@ -169,18 +165,6 @@ Theorem T_C01_mp_load_save_map_on_model : forall narrow widen o kvs ks e b,
     load_obj narrow widen o b (map_prog o ks e (map absp kvs)) = MpScopeModel.LOk toks [].
 Proof. exact load_save_map_on_model. Qed.
 Print Assumptions T_C01_mp_load_save_map_on_model.
-
-(* a value of a static shape never has a NaN key, so the restriction of M01 does not touch save-then-load *)
-Theorem T_C01_mp_shape_keys_refl : forall v s, has_shape v s = true -> keys_refl (abs v) = true.
-Proof. exact has_shape_keys_refl. Qed.
-Print Assumptions T_C01_mp_shape_keys_refl.
-
-(* programs of shapes without std::map never load from inside a VisitKeys callback *)
-Theorem T_C01_mp_programs_each_free : forall o s, map_free s = true ->
-  (forall v, each_free_areqs (mk_areqs (elem_prog o s v)) = true) /\
-  (forall q ov, each_free_reqs (mk_reqs (member_prog o s q ov)) = true).
-Proof. exact progs_each_free. Qed.
-Print Assumptions T_C01_mp_programs_each_free.
 
 Theorem T_C01_mp_load_save_vec_on_model : forall narrow widen o l e b,
   has_shape (TArr l) (SVec e) = true -> wf_tv (TArr l) -> doc_ok (abs (TArr l)) = true ->
